@@ -140,7 +140,7 @@ def run(ctx):
     stmts = [("common_parser", s) for s in TEMPLATES]
     stmts += [(c["parser"], c["sql"]) for c in impl.corpus() if "null" in c["sql"].lower()]
     g = gens.G(rnd, null_rate=0.3)
-    gen = [g.statement() for _ in range(ctx.n(150, 1500))]
+    gen = [x for x in (g.statement() for _ in range(ctx.n(110, 1500))) if len(x) <= 300]
     for s in list(gen):
         gen += inject_nulls(rnd, s)
     stmts += [("common_parser", s) for s in gen]
